@@ -1,4 +1,5 @@
 import Agd.Gen.TrC12
+import Agd.Model.ResultCache
 /-!
 # C12: order of "install the new version" and "drop the cached results", as translated from the source
 
@@ -93,6 +94,53 @@ theorem rl_dnsresult_hit_or_compute (f : S_rulelist_filter) (cn host : String) (
   · intro h1 h2; subst h1; subst h2; simp [rl_DNSResult]
   · intro h1 h2; subst h1; subst h2
     by_cases hc : (!mr.2 && decide (nr = 0)) = true <;> simp [rl_DNSResult, hc]
+
+/-! ## `custom.Filters.get` (translator round 3; the code after the `fix:` commit "use a cached filter only
+for the same update time") -/
+
+/-- The decision structure of `get`: a miss returns nil without comparing anything; a cached item whose
+update time is **not equal** to the configuration's is not used; an item with an equal time is returned
+as it is.  The only way to panic is a hit (`ok`) without an item. -/
+theorem custom_get_hit_iff_equal (f : S_custom_Filters) (item : Option S_custom_cacheItem) (ok : Bool) (id : String) (eq : Bool) :
+    (custom_get f (item, ok) id eq = none ↔ (ok = true ∧ eq = true ∧ item = none)) ∧
+    (ok = false → custom_get f (item, ok) id eq = some (none, [("Get", [id])])) ∧
+    (ok = true → eq = false → custom_get f (item, ok) id eq = some (none, [("Get", [id]), ("Equal", ["_"])])) ∧
+    (ok = true → eq = true → ∀ it, item = some it →
+      custom_get f (item, ok) id eq = some (it.ruleList, [("Get", [id]), ("Equal", ["_"])])) := by
+  cases ok <;> cases eq <;> cases item <;> simp [custom_get]
+
+/-- The model's cache cell as the result of `f.cache.Get(c.ID)`; `rl` gives each model item the compiled
+engine the real cache holds for it (non-nil for items the model stores). -/
+def getOf (rl : Agd.ResultCache.CItem → S_rulelist_Immutable) (cell : Option Agd.ResultCache.CItem) :
+    Option S_custom_cacheItem × Bool :=
+  (cell.map fun i => ⟨some (rl i)⟩, cell.isSome)
+
+/-- **Tie to the hand model** (`Agd.ResultCache.CU.step`, the `get` operation of an enabled configuration
+with rules): for every model cache and every configuration, the translated `get` — given the model's
+cell and the truth of `item.updTime.Equal(c.UpdateTime)` — returns a cached engine exactly when the
+model answers from the cache without changing it (cell present with an equal update time), and it is
+the engine of that cell; otherwise it returns nil and the model rebuilds (stores the configuration's rules
+under its update time). -/
+theorem custom_get_tr (f : S_custom_Filters) (rl : Agd.ResultCache.CItem → S_rulelist_Immutable)
+    (s : Agd.ResultCache.CU) (c : Agd.ResultCache.Conf) (hen : c.enabled = true) (hr : c.rules.isEmpty = false) :
+    let cell := s c.id
+    let eq := match cell with | some it => decide (it.upd = c.upd) | none => false
+    (custom_get f (getOf rl cell) c.id eq).map (·.1) =
+      some (match cell with | some it => if it.upd = c.upd then some (rl it) else none | none => none) ∧
+    (∀ it, cell = some it → it.upd = c.upd → s.step (.get c) = (s, some it.rules)) ∧
+    ((∀ it, cell = some it → it.upd ≠ c.upd) → s.step (.get c) = (s.put c.id ⟨c.upd, c.rules⟩, some c.rules)) := by
+  intro cell eq
+  cases hc : s c.id with
+  | none => simp [custom_get, getOf, cell, hc, Agd.ResultCache.CU.step, hen, hr]
+  | some it =>
+    by_cases he : it.upd = c.upd
+    · simp [custom_get, getOf, cell, eq, hc, he, Agd.ResultCache.CU.step, hen, hr]
+    · simp [custom_get, getOf, cell, eq, hc, he, Agd.ResultCache.CU.step, hen, hr]
+
+/-- Non-vacuity: a cached engine compiled for update time 5 is not used for a configuration stamped 4
+(the clock was set back) nor for one stamped 6, only for 5. -/
+example : (custom_get ⟨⟩ (some ⟨some ⟨none⟩⟩, true) "p1" false).map (·.1) = some none ∧
+    (custom_get ⟨⟩ (some ⟨some ⟨none⟩⟩, true) "p1" true).map (·.1) = some (some ⟨none⟩) := by decide
 
 end Agd.Tie.TrC12
 
